@@ -9,7 +9,7 @@
    walk over the interface payloads of the template is not modelled. *)
 From Coq Require Import List NArith ZArith Bool Lia.
 From Dials Require Import Base.Outcome Base.Runes Reflect.Ty Reflect.Ptrify Reflect.Heap Stack.Overlay
-  Copy.DeepCopy Copy.DeepCopySpec Copy.DeepCopyBasics Copy.DeepCopyInv Copy.DeepCopyBisim Copy.DeepCopySharing
+  Copy.DeepCopy Copy.DeepCopySpec Copy.DeepCopyBasics Copy.DeepCopyInv Copy.DeepCopyTerm Copy.DeepCopyBisim Copy.DeepCopySharing
   Stack.ComposeH Stack.ComposeHProofs Stack.History Stack.HistoryProofs.
 Import ListNotations.
 Open Scope N_scope.
@@ -136,6 +136,6 @@ Theorem config_on_graphs_partial_b : forall fuel fs h n0 defaults H N d vs,
 Proof.
   intros fuel fs h n0 defaults H N d vs G1 G2 Hc.
   apply (config_on_graphs_partial_l fuel fs h n0 defaults H N d vs); auto.
-  - apply DeepCopyTerm.wf_heapb_ok; auto.
+  - apply wf_heapb_ok; auto.
   - apply N.ltb_lt; auto.
 Qed.
